@@ -34,6 +34,13 @@ for f in sorted(glob.glob(H + "/seeded/*/meta.json")):
     conf = "%s / %s / %s" % ("yes" if c["existing_suite_nonok_lines"] == 0 else "NO", "yes" if c["demo_fails_with_change"] else "NO", "yes" if c["demo_passes_without_change"] else "NO")
     out.append("| %s | %s | %s | %s | %s | %s | %s |" % (m["seed"], m["breaks_property"], conf, " ".join(m["checks_that_fire"]) or "none", st, m.get("rule", ""), m.get("note", "")))
 out.append("\n%d seeded changes: %d caught by the checks as they stood when the change arrived, %d caught after a rule was added or tightened in response, %d not caught (reasons in the note column).\n" % (n, first, later, missed))
+out.append("### 10.3 Behaviour-preserving refactorings (written by sub-agents that saw only the property text; every check must stay silent)\n")
+out.append("| refactoring | suite passes | checks that fired when it arrived | cause | correction | checks that fire now |")
+out.append("|---|---|---|---|---|---|")
+for f in sorted(glob.glob(H + "/refactors/*/meta.json")):
+    m = json.load(open(f))
+    out.append("| %s | %s | %s | %s | %s | %s |" % (m["refactor"], "yes" if m["suite_nonok_lines"] == 0 else "see note", " ".join(m.get("checks_that_fired_when_it_arrived", [])) or "none", m.get("cause", ""), m.get("correction", ""), " ".join(m.get("checks_that_fire", [])) or "none"))
+out.append("")
 s = open(H + "/DESIGN.md").read()
 s = re.sub(r"<!-- BEGIN GENERATED TABLES -->.*<!-- END GENERATED TABLES -->", "<!-- BEGIN GENERATED TABLES -->\n" + "\n".join(out).replace("\\", "\\\\") + "\n<!-- END GENERATED TABLES -->", s, flags=re.S)
 open(H + "/DESIGN.md", "w").write(s)
